@@ -69,7 +69,10 @@ TRANSLATORS = {
 TRANSLATORS.update({
     "C06": _T + "harness/py2v_clen.py + coq/lib/PyClen.v (Response / "
            "FileObjResponse / GeneratorResponse length bookkeeping and "
-           "__end_of_response__, IBytesIO iteration -> gen/ClenGen.v)",
+           "__end_of_response__, IBytesIO iteration -> gen/ClenGen.v); "
+           "harness/py2v_call.py + coq/lib/PyCall.v (BaseResponse.__call__, "
+           "Declined.__call__, BaseResponse.__end_of_response__ -> "
+           "gen/CallGen.v)",
     "C10": _T + "harness/py2v_form.py + coq/lib/PyForm.v (Args, "
            "FieldStorage / EmptyForm / JsonDict / JsonList accessors, "
            "parse_json_request, decision skeleton of Request.__init__ -> "
